@@ -285,3 +285,36 @@ func vpH_C11_T_flapping_verify() {
 	vpQuiesce()
 	vpAssert("C11.threads-end", vpThreadsAlive() == 0)
 }
+
+// vpH_C11_T_grace_new_term: a disconnect notification, then — inside the grace period and without any
+// reconnect notification — the term ends through another mechanism (its record is replaced, the next heartbeat
+// conflicts), the record is vacated and the instance acquires a new term. When the grace period measured from
+// the disconnect elapses, the instance still leads and no reconnect arrived: it is demoted at that moment, with
+// the demotion callback.
+func vpH_C11_T_grace_new_term() {
+	H := time.Second
+	vpSetOpt("rand-fixed", 1)
+	s := vpConnInstance(H, 0, nil)
+	s.kv.opLeft = 40
+	vpDelay("gap", 0, 400*time.Millisecond)
+	s.notify(0)
+	time.Sleep(300 * time.Millisecond)
+	s.st.write("env:other", "update", vpRecMk("other", "tok-other", 0), false, s.st.lastSeq)
+	time.Sleep(H + 200*time.Millisecond) // the heartbeat has noticed
+	vpQuiesce()
+	vpAssert("harness.first-term-over", !s.e.IsLeader() && s.cb.demotes == 1)
+	s.st.write("env:other", "delete", nil, true, 0)
+	time.Sleep(500 * time.Millisecond)
+	vpQuiesce()
+	if !s.e.IsLeader() {
+		vpEndPath("not-re-elected")
+	}
+	time.Sleep(s.G)
+	vpQuiesce()
+	vpCover("C11.grace-new-term")
+	vpAssert("C11.at-grace", s.graceDemotions == 1 && !s.e.IsLeader())
+	vpAssert("C11.at-grace:callback", s.cb.demotes == 2)
+	_ = s.e.Stop()
+	vpQuiesce()
+	vpAssert("C11.threads-end", vpThreadsAlive() == 0)
+}
